@@ -60,6 +60,7 @@ package grpc
 // at package initialisation (precondition, not re-proved).
 
 //@ import io "io"
+//@ import codes "google.golang.org/grpc/codes"
 
 //@ func toRPCErr
 //@   prop C24
@@ -67,3 +68,23 @@ package grpc
 //@   ensures implies(err == nil, result == nil)
 //@   ensures implies(err == io.EOF, result == err)
 //@   ensures implies(result != nil && result != io.EOF, isstatus(result))
+
+// ---- C26: requests are dispatched only to the registered method -----------------
+//
+// handleStream parses "/service/method" (split at the LAST slash) and
+// dispatches. The facts are stated where the dispatch happens: at each of the
+// two processRPC call sites, at the two malformed-name sites and where the
+// UNIMPLEMENTED status is built. sm is the method string without its leading '/'.
+
+//@ func (*Server).handleStream
+//@   prop C26
+//@   assert at call handleMalformedMethodName#1 !(len(stream.Method()) > 0 && stream.Method()[0] == '/')
+//@   assert at call handleMalformedMethodName#2 found && forall(func(j int) bool { return implies(0 <= j && j < len(sm), sm[j] != '/') })
+//@   assert at call processRPC#1 found && 0 <= pos && pos < len(sm) && sm[pos] == '/' && forall(func(j int) bool { return implies(pos < j && j < len(sm), sm[j] != '/') })
+//@   assert at call processRPC#1 service == sm[:pos] && method == sm[pos+1:]
+//@   assert at call processRPC#1 haskey(s.services, service) && arg3 == s.services[service] && haskey(arg3.streams, method) && arg4 == arg3.streams[method]
+//@   assert at call processRPC#2 arg3 == nil && arg4 != nil && arg4 == s.opts.unknownStreamDesc
+//@   assert at call processRPC#2 !(haskey(s.services, service) && haskey(s.services[service].streams, method))
+//@   assert at call Sprintf#1 s.opts.unknownStreamDesc == nil && !knownService && !haskey(s.services, service)
+//@   assert at call Sprintf#2 s.opts.unknownStreamDesc == nil && knownService && !haskey(srv.streams, method)
+//@   assert at call New#1 arg0 == codes.Unimplemented
